@@ -15,6 +15,7 @@ import TTModel.Cross
 import TTModel.Manifold
 import TTModel.Decomp
 import TTModel.DecompM
+import TTModel.NormQR
 import TTModel.Permute
 import TTModel.Reshape
 import TTModel.Scalar
@@ -441,6 +442,10 @@ def run : PM String := do
   | "roundttm" => do
       let cap ← nat; let (_, x) ← tt
       pure (showTT true ((Decomp.roundTTM (Decomp.idOracle 1000000) (Decomp.idOracle cap) x).map freeze))
+  | "normqr" => do
+      let (isM, x) ← tt
+      let v := if isM then Decomp.normSqQRM GRat.conj (Decomp.idOracle 1000000) x else Decomp.normSqQR GRat.conj (Decomp.idOracle 1000000) x
+      pure s!"sc {v}"
   | "lrorth" => do
       let (_, x) ← tt
       pure (showTT false ((Decomp.lrOrth (Decomp.idOracle 1000000) x).map freeze))
